@@ -205,7 +205,10 @@ def special_shard(acc, role):
     finally:
         sb.b.close()
     # (3) CompIDs
-    for sender, target in (("CL\u00cd", "SRV"), ("CLI", "SR\u00dc"), ("\u540d", "SRV")):
+    # letters, an ideograph, and non-ASCII characters that are NOT printable (their repr() is an ASCII escape): NBSP, zero-width
+    # space, BOM, soft hyphen, a C1 control
+    for sender, target in (("CL\u00cd", "SRV"), ("CLI", "SR\u00dc"), ("\u540d", "SRV"), ("CLI\u00a0", "SRV"), ("CLI", "\u200bSRV"), ("\ufeffCLI", "SRV"),
+                           ("CL\u00adI", "SRV"), ("CLI", "SRV\u0085")):
         w = World()
         try:
             if role == "initiator":
